@@ -167,7 +167,8 @@ var bundlePkgs = []string{"wb1", "wb2", "wb3", "wb4"}
 func groupEnabled(name string) bool { return !strings.HasSuffix(name, "_off") }
 
 // loadHistory loads the files in order into one engine, each with the group filter.
-func loadHistory(fset *token.FileSet, files map[string]string, order []string) (e *ruleguard.Engine, err error) {
+// via[i] == "ir": the file is converted to IR first (hook VerifConvertAST) and installed with Engine.LoadFromIR.
+func loadHistory(fset *token.FileSet, files map[string]string, order []string, via []string) (e *ruleguard.Engine, err error) {
 	for try := 0; try < 4; try++ {
 		e, err = func() (e2 *ruleguard.Engine, err2 error) {
 			defer func() {
@@ -177,7 +178,17 @@ func loadHistory(fset *token.FileSet, files map[string]string, order []string) (
 			}()
 			e2 = ruleguard.NewEngine()
 			ctx := &ruleguard.LoadContext{Fset: fset, GroupFilter: func(g *ruleguard.GoRuleGroup) bool { return groupEnabled(g.Name) }}
-			for _, name := range order {
+			for i, name := range order {
+				if i < len(via) && via[i] == "ir" {
+					irf, err := ruleguard.VerifConvertAST(e2, ctx, name, []byte(files[name]))
+					if err != nil {
+						return nil, err
+					}
+					if err := e2.LoadFromIR(ctx, name, irf); err != nil {
+						return nil, err
+					}
+					continue
+				}
 				if err := e2.Load(ctx, name, strings.NewReader(files[name])); err != nil {
 					return nil, err
 				}
@@ -392,6 +403,7 @@ type rsObs struct {
 	Skipped  []string          `json:"skipped,omitempty"`
 	Loads    []string          `json:"loads,omitempty"`  // per Load call: "+s0c" = contributed syntax rules, no comment rules
 	Parts    []int             `json:"parts,omitempty"`  // per Load call: number of imported bundle files
+	Via      []string          `json:"via,omitempty"`    // per Load call: Engine.Load of the source / Engine.LoadFromIR of its IR
 	LastLean bool              `json:"last_lean"`        // the last Load contributed no syntax rule, earlier ones did
 	Pairs    []string          `json:"pairs,omitempty"` // (node tag, pattern tag) pairs that produced an accepted match
 	Contested int              `json:"contested"`        // nodes on which more than one rule had an accepted match
@@ -446,12 +458,16 @@ func runRulesMode(enc *json.Encoder, rng *rand.Rand, nsets, size int, tmp string
 		files, order, rules, parts := genRuleSet(rng, pats, bundles, si)
 		fset := token.NewFileSet()
 		var loadErr string
-		e, err := loadHistory(fset, files, order)
+		via := make([]string, len(order))
+		for i := range via {
+			via[i] = []string{"source", "source", "ir"}[rng.Intn(3)]
+		}
+		e, err := loadHistory(fset, files, order, via)
 		if err != nil {
 			loadErr = err.Error()
 		}
 		tg := targets[si%len(targets)]
-		obs := rsObs{K: "rs", Set: si, Target: tg.name, Rules: rules, Parts: parts}
+		obs := rsObs{K: "rs", Set: si, Target: tg.name, Rules: rules, Parts: parts, Via: via}
 		// the shape of the load history: per Load call, how many syntax / comment rules it contributed
 		{
 			ns, nc := make([]int, len(order)), make([]int, len(order))
